@@ -117,6 +117,24 @@ type monitors struct {
 	leafCache  map[string][]*sunlight.LogEntry // decoded published trees (data tiles are immutable)
 	checks     map[string]int
 	uploaded   map[string][32]byte // digest of what an instance last uploaded under each key
+	// issuer objects altered (not deleted) while no instance was running, by object key; an instance started
+	// afterwards compares the existing object on EVERY submission that chains to it and never trusts it
+	alteredIssuers map[string]bool
+}
+
+// issuerAck (C08, "existing issuer objects compared before trusting them"): no entry chaining to an issuer whose
+// stored object was altered before the acknowledging instance started (and still is) may be acknowledged
+func (m *monitors) issuerAck(w *world, e *ctlog.PendingLogEntry, idx int64) {
+	for _, iss := range e.Issuers {
+		key := fmt.Sprintf("issuer/%x", sha256.Sum256(iss))
+		if !m.alteredIssuers[key] {
+			continue
+		}
+		m.checks["C08.issuer"]++
+		if o, ok := w.objects[key]; ok && !bytes.Equal(o.data, iss) {
+			m.fail("C08 acknowledged index %d for an entry chaining to %s although that stored object was altered before this instance started and is still not the issuer (%d bytes stored, %d expected): the existing object was trusted without being compared", idx, key, len(o.data), len(iss))
+		}
+	}
 }
 
 func (m *monitors) noteUpload(key string, data []byte) {
@@ -423,6 +441,7 @@ func (m *monitors) final(w *world) {
 
 // ack: the acknowledged entry is in the published tree (C02); called with w.mu held
 func (m *monitors) ack(w *world, e *ctlog.PendingLogEntry, idx, ts int64) {
+	m.issuerAck(w, e, idx)
 	if m.tampered {
 		return
 	}
